@@ -98,7 +98,7 @@ func genPlan(t *rapid.T) interface{} {
 	var kinds []string
 	switch p.Mode {
 	case "store":
-		kinds = []string{"write", "write", "write", "read", "read", "snapshot", "compact", "delete-victim", "conflict", "conflict", "conflict-in-window", "newfields-in-window", "drop-victim-measurement"}
+		kinds = []string{"write", "write", "write", "read", "read", "snapshot", "compact", "delete-victim", "conflict", "conflict", "conflict-in-window", "newfields-in-window", "write-during-delete-window", "drop-victim-measurement"}
 	case "handoff":
 		kinds = []string{"write", "write", "sleep"}
 	case "meta":
@@ -292,6 +292,7 @@ func execStore(run *core.Run, p *plan) {
 	reads := make([][]*rrec, nc)
 	var tcount, windowN atomic.Int64
 	var windowMu sync.Mutex
+	var windowFail atomic.Value
 	kinds := []model.Kind{model.Float, model.Integer, model.String, model.Boolean}
 	mkVal := func(k model.Kind, n int64) (model.Value, interface{}) {
 		switch k {
@@ -470,6 +471,91 @@ func execStore(run *core.Run, p *plan) {
 				if _, err := sim.Compact(id, kind, o.Pick); err != nil {
 					run.Logf("client %d op%d compact: %v", c, oi, err)
 				}
+			case "write-during-delete-window":
+				// A DROP SERIES with a tag predicate is in flight - its guard is
+				// installed and it waits for a write (W1) that is parked inside
+				// the shard - when a write (W2) to a series the predicate selects
+				// arrives. W2 has to wait for the delete; if it does not, it is
+				// parked between registering its series and storing its point
+				// while the delete runs to completion. Either way W2 returns
+				// after the delete has, and its point was stored after the
+				// delete: it must be readable.
+				if !windowMu.TryLock() {
+					continue
+				}
+				wn := windowN.Add(1)
+				vic := fmt.Sprintf("wv%d", wn)
+				t1, t2 := tcount.Add(1), tcount.Add(1)
+				p1 := models.MustNewPoint("wm", models.NewTags(map[string]string{"c": fmt.Sprintf("w1_%d", wn)}), models.Fields{"f": float64(t1)}, time.Unix(0, t1))
+				// the selected series carries another tag that sorts before the predicate's
+				p2 := models.MustNewPoint("wm", models.NewTags(map[string]string{"a": "1", "c": vic}), models.Fields{"f": float64(t2)}, time.Unix(0, t2))
+				var g1, g2 atomic.Value
+				reached1, release1 := make(chan struct{}), make(chan struct{})
+				reached2, release2 := make(chan struct{}), make(chan struct{})
+				var once1, once2 sync.Once
+				verifhook.SetYield(func(ev string, args ...interface{}) {
+					if ev != "shard.fields.validated" {
+						return
+					}
+					me := curGoroutine()
+					if v := g1.Load(); v != nil && v.(string) == me {
+						once1.Do(func() { close(reached1) })
+						<-release1
+					} else if v := g2.Load(); v != nil && v.(string) == me {
+						once2.Do(func() { close(reached2) })
+						<-release2
+					}
+				})
+				done1, doneD, done2 := make(chan error, 1), make(chan error, 1), make(chan error, 1)
+				go func() { g1.Store(curGoroutine()); done1 <- sim.Store.WriteToShard(id, []models.Point{p1}) }()
+				<-reached1
+				go func() { doneD <- sim.DeleteWhere([]string{"wm"}, fmt.Sprintf("c = '%s'", vic)) }()
+				pause(400) // the delete installs its guard and waits for W1
+				go func() { g2.Store(curGoroutine()); done2 <- sim.Store.WriteToShard(id, []models.Point{p2}) }()
+				parked2 := false
+				for i := 0; i < 400 && !parked2; i++ {
+					select {
+					case <-reached2:
+						parked2 = true
+					default:
+						runtime.Gosched()
+					}
+				}
+				close(release1)
+				e1 := <-done1
+				// If W2 got into the shard before the delete had installed its
+				// guard (the harness cannot see that moment), the delete waits
+				// for it as for W1: nothing to judge then, W2 is let go.
+				var eD error
+				early := false
+				for i := 0; ; i++ {
+					select {
+					case eD = <-doneD:
+					default:
+						if i < 3000 {
+							runtime.Gosched()
+							continue
+						}
+						early = true
+					}
+					break
+				}
+				close(release2)
+				if early {
+					eD = <-doneD
+				}
+				e2 := <-done2
+				verifhook.SetYield(nil)
+				windowMu.Unlock()
+				run.Logf("client %d op%d write-during-delete-window: W1 %v, delete %v, W2 %v (W2 ran past the delete's guard: %v; entered before the guard: %v)", c, oi, e1, eD, e2, parked2, early)
+				if e1 == nil && eD == nil && e2 == nil && !early {
+					obs, err := sim.ReadCursors(id, storesim.FullRange, []storesim.SeriesField{{M: "wm", Tags: []model.Tag{{K: "a", V: "1"}, {K: "c", V: vic}}, Field: "f"}})
+					key := fmt.Sprintf("wm,a=1,c=%s", vic)
+					if err != nil || len(obs[key]["f"]) != 1 {
+						windowFail.Store(fmt.Sprintf("client %d op%d: a write to %s was acknowledged after a DROP SERIES ... WHERE c = '%s' had completed (the write arrived while the delete was in flight), and its point cannot be read: got %v (err %v); the write ran past the delete's guard: %v", c, oi, key, vic, obs[key]["f"], err, parked2))
+					}
+					run.Probe("write-during-delete-window")
+				}
 			case "delete-victim":
 				if err := sim.DeleteWhere([]string{"victim"}, fmt.Sprintf("v = '%d'", o.Pick%4)); err != nil {
 					run.Logf("client %d op%d delete victim: %v", c, oi, err)
@@ -487,6 +573,10 @@ func execStore(run *core.Run, p *plan) {
 		return
 	}
 	if !ok {
+		return
+	}
+	if v := windowFail.Load(); v != nil {
+		run.Fail("acknowledged-write-lost", "write-during-delete-window", "%s", v)
 		return
 	}
 	// oracles over the recorded history
@@ -1054,7 +1144,7 @@ func TestC19(t *testing.T) {
 		Bubble:         true,
 		Warmup:         func() { storesim.Warmup() },
 		Describe:       describe,
-		RequiredProbes: []string{"newfields-in-creation-window", "conflict-in-validation-window", "store-run", "handoff-run", "meta-run", "pool-run", "pool-closed-in-put-window", "concurrent-read-checked", "concurrent-snapshot-checked", "handoff-points-delivered"},
+		RequiredProbes: []string{"newfields-in-creation-window", "conflict-in-validation-window", "store-run", "handoff-run", "meta-run", "pool-run", "pool-closed-in-put-window", "write-during-delete-window", "concurrent-read-checked", "concurrent-snapshot-checked", "handoff-points-delivered"},
 		Real:           []string{"tsdb.Store/Shard/tsm1 engine, cache, file store, compactor, index (inmem, tsi1) under real goroutines", "hh.NodeProcessor and queue with its retry loop", "meta store state machine (Apply, Snapshot, Persist) and Data.Clone", "coordinator bounded connection pool", "the Go race detector (binary built with -race)"},
 		Stub:           []string{"handoff target, pool connections, raft (commands are applied by one goroutine in order)"},
 		Assumptions:    []string{"which goroutine runs when is decided by the Go scheduler: a seed fixes the operations, their order per client and the pauses, not the interleaving; a violation is replayed by re-running the plan several times"},
